@@ -2,7 +2,15 @@ module verif/harness
 
 go 1.18
 
-require github.com/philpearl/plenc v0.0.0
+require (
+	github.com/philpearl/plenc v0.0.0
+	github.com/unravelin/null v2.1.2+incompatible
+)
+
+require (
+	github.com/josharian/intern v1.0.0 // indirect
+	github.com/mailru/easyjson v0.7.7 // indirect
+)
 
 replace github.com/philpearl/plenc => /repo
 
